@@ -209,7 +209,7 @@ CHECKS["C15"] = dict(
          "generated cos/sin tables (Fourier, refined AAFT true spectrum) also after repeated calls, the original data untouched, "
          "TwinsDef (exactly the pairs further apart than min_dist with identical recurrence rows and more than one neighbour) and "
          "TwinWalk (every step goes to the own successor or the successor of a twin, or restarts at the end).",
-    note="Spectra compared to 2 % (fixed-point squares); RecurrencePlot.twin_surrogates / twins are not driven yet; the twin walk is "
+    note="Spectra compared to 2 % (fixed-point squares); the twin walk is "
          "checked as a relation on seeded runs, not replayed choice by choice.",
     ref="6/C15")
 
@@ -221,8 +221,10 @@ CHECKS["C12"] = dict(
          "to 2^-10 rad, Euclidean distances with exact squared distances, and decides exact symmetry, range [0, pi], self-distance, the "
          "triangle inequality with 2^-10 slack (also on seeded general-position coordinates), Cartesian-product enumeration, nearest-node "
          "lookup within the arg-min set, cos-lat node weights, area-weighted connectivity and max link distance consistency.",
-    note="PARTIAL: closed-form equality at generic pairs and the 2^-20 relative bound are not decided (no arccos in TLA+); cos-lat through a "
-         "generated sine table (1e-4).",
+    note="Closed-form equality at generic pairs is decided for integer-degree coordinates only (haversine through generated sine "
+         "tables at scale 10^-8, fixed-point error < 15 units); the relative bound is decided in the form 'error of the haversine <= "
+         "10^-6' (about 2^-19 rad at a right angle), not as 2^-20; real-valued coordinates stay under the metric laws only; cos-lat "
+         "through a generated sine table (1e-4).",
     ref="6/C12")
 
 CHECKS["C10"] = dict(
@@ -270,10 +272,13 @@ EXT = {
            "same arrays, function targets, NoStaleHit by shadow re-evaluation, targets EventSeries, Havlin, Hilbert, partial "
            "correlation, CoupledClimateNetwork, EventSeriesClimateNetwork, disconnected and interacting networks, data flagged as "
            "anomalies."
-           ' Third round: link lengths that coincide with the placeholder N.',
+           ' Third round: link lengths that coincide with the placeholder N.'
+           ' Fourth round: every recurrence-type class under its documented constructor keywords (normalize, metric, embedding, '
+           'missing values, sparse mode, every way of prescribing the recurrences), scalar and 2-D series, each from its own caller arrays.',
     "C07": " Added: threshold in units of the standard deviation (exact, ties open); every second case reaches its setting through "
            "the setter on an object constructed with another setting (all six classes)."
-           ' Third round: adaptive neighbourhood through the setter with a reversed / rotated processing order.',
+           ' Third round: adaptive neighbourhood through the setter with a reversed / rotated processing order.'
+           ' Fourth round: inter-system networks with separate delays for the two series (cross plots with one delay), pairs up to length 4.',
     "C08": " Added: rqa_summary, recurrence_probability, partially missing state vectors.",
     "C09": " Added: asymmetric matrices with distinct entries (sharp density clause for directed networks); the same behaviours on "
            "CoupledClimateNetwork; NonLocalDef from the harness' coordinates; data-driven subclasses along ObjectSM histories "
@@ -286,7 +291,11 @@ EXT = {
            ' Third round: all 15 link-attribute signatures driven with link lengths (strengths, average cross closeness, global efficiency).',
     "C12": " Added: Stable (distances unchanged after network analysis), irrigation weights, total / mean weight consistency, "
            "Euclidean nearest-node lookup, antipodal queries."
-           ' Third round: area-weighted connectivity under every node-weight type; Euclidean distances of the translated grid.',
+           ' Third round: area-weighted connectivity under every node-weight type; Euclidean distances of the translated grid.'
+           ' Fourth round: integer-degree points in GENERAL position (plus near-polar, nearly coincident and nearly antipodal pairs): '
+           'every recorded angle (10^-8 rad) is taken through a fixed-point haversine and compared with sin^2(dlat/2) + cos cos '
+           'sin^2(dlon/2) from half-degree sine tables - absolute error below 2^-10 rad everywhere (bracketing by monotonicity) and '
+           'single-precision accuracy of the haversine; nearest-node lookups at query points in general position.',
     "C13": " Added: input representations (int64 / strided / float32), translated time axis, indices_selected_phases."
            ' Third round: the action set_window(window()) after degenerate views.',
     "C14": " Added: visibility / visibility_single accessors."
